@@ -111,7 +111,8 @@ impl<K: Hash + Eq, KH: KeyHasher<K>> TinyLFUBuilder<K, KH> {
         }
 
         let fp_ratio = self.false_positive_ratio.unwrap();
-        if fp_ratio <= 0.0 || fp_ratio >= 1.0 {
+        // written so that NaN is rejected as well
+        if !(fp_ratio > 0.0 && fp_ratio < 1.0) {
             return Err(TinyLFUError::InvalidFalsePositiveRatio(fp_ratio));
         }
 
